@@ -42,8 +42,17 @@ def dt_to_us(dt: datetime) -> int:
     return (dt - EPOCH) // US
 
 
-def us_to_dt(us: int, offset_min: int = 0) -> datetime:
+# the instant (seconds since the epoch) at which these zones, at UTC+0 all winter, move their clocks forward in 2024
+DST_SPRING = [("Europe/London", 1711846800), ("Europe/Lisbon", 1711846800)]
+
+
+def us_to_dt(us: int, offset_min=0) -> datetime:
+    """the instant as an aware datetime at the given UTC offset (minutes), or in the named zone (zoneinfo)"""
     dt = EPOCH + timedelta(microseconds=us)
+    if isinstance(offset_min, str):
+        from zoneinfo import ZoneInfo
+
+        return dt.astimezone(ZoneInfo(offset_min))
     if offset_min:
         dt = dt.astimezone(timezone(timedelta(minutes=offset_min)))
     return dt
